@@ -32,6 +32,8 @@ inductive Cls where
   | unicodeDecodeError -- bytes.decode("ascii") on a byte >= 128
   | protocolError      -- Pyro5.errors.ProtocolError
   | zlibError          -- zlib.error
+  | structError        -- struct.error
+  | unicodeEncodeError -- str.encode("ascii") on a code point >= 128
   deriving Repr, DecidableEq
 
 inductive Val where
@@ -46,6 +48,8 @@ inductive Val where
   | dict (items : List (List Nat × Bytes))   -- a dict from str to bytes, in insertion order
   | resources (ids : List Nat)      -- a collection of objects that have a close() method, identified by number
   | resource (id : Nat)
+  | chunks (l : List Bytes)         -- a list of bytes objects
+  | uuid (b : Bytes)                -- a uuid.UUID (always truthy), known by its .bytes
   deriving Repr, DecidableEq
 
 /-- one field of a big-endian `struct` format: `<n>s` (n raw bytes) or an unsigned integer of n bytes (B, H, I) -/
@@ -91,6 +95,23 @@ inductive Expr where
   | maxSize                         -- config.MAX_MESSAGE_SIZE
   | isNone (e : Expr)               -- e is None
   | startsWith (e p : Expr)         -- e.startswith(p) on bytes
+  | orElse (a b : Expr)             -- `a or b` as a value
+  | sumValues (x : String) (d body : Expr)   -- sum([body for x in d.values()])
+  | ifExp (c a b : Expr)            -- a if c else b
+  | isInst (e : Expr) (bytesIs : Bool)  -- isinstance(e, T) for a value that is a bytes object; bytesIs = isinstance(b"", T), resolved on the real T
+  | unsupportedE (what : String)    -- an expression outside the fragment: evaluating it is `stuck`
+  | compressionOn                   -- config.COMPRESSION
+  | corrId                          -- current_context.correlation_id
+  | uuidBytes (e : Expr)            -- e.bytes
+  | joinChunks (e : Expr)           -- b"".join(e)
+  | emptyList                       -- []
+  | concat (a b : Expr)             -- a + b on bytes
+  deriving Repr
+
+/-- the arguments of one `struct.pack` call with a big-endian format, each with its field -/
+inductive PackArgs where
+  | nil
+  | cons (f : Fld) (e : Expr) (rest : PackArgs)
   deriving Repr
 
 inductive Stmt where
@@ -126,6 +147,12 @@ inductive Stmt where
   | sockClose                                     -- self.sock.close()   (may raise)
   | unpackInto (targets : List String) (fmt : List Fld) (e : Expr)
                                                   -- t1, t2, ... = struct.unpack(fmt, e)   ("_" = discarded)
+  | setBits (x : String) (c : Expr)               -- x |= c   (x, c >= 0)
+  | compress (x : String) (e : Expr)              -- x = zlib.compress(e, level)
+  | packInto (x : String) (args : PackArgs)       -- x = struct.pack(fmt, args...)   (struct.error when a value does not fit)
+  | appendTo (x : String) (e : Expr)              -- x.append(e)   (x a list of bytes objects)
+  | encodeAscii (x : String) (e : Expr)           -- x = e.encode("ascii")
+  | forEachItem (k v : String) (e : Expr) (body : Stmt)   -- for k, v in e.items(): body
   | unsupported (what : String)                   -- a statement outside the fragment: running it is `stuck`
   deriving Repr
 
@@ -138,6 +165,9 @@ structure Cfg where
   unzip : Bytes → Option Bytes := fun _ => none   -- zlib.decompress (none = zlib.error)
   closeRaises : Nat → Bool := fun _ => false      -- which resources' close() raises (and the two socket marks)
   maxSize : Nat := 0                              -- config.MAX_MESSAGE_SIZE
+  compression : Bool := false                     -- config.COMPRESSION
+  zip : Bytes → Bytes := fun b => b               -- zlib.compress
+  corr : Option Bytes := none                     -- current_context.correlation_id (its .bytes), None when unset
 
 structure World where
   stream : Bytes                    -- what the peer will still send
@@ -173,11 +203,20 @@ def truthy : Val → Option Bool
   | .resources r => some (!r.isEmpty)
   | _ => some true
 
+/-- `sum(f(v) for v in d.values())`: every element's value must be an int (else outside the fragment) -/
+def sumOver (f : Bytes → Option Val) : List (List Nat × Bytes) → Option Int
+  | [] => some 0
+  | (_, v) :: rest =>
+    match f v, sumOver f rest with
+    | some (.int i), some a => some (i + a)
+    | _, _ => none
+
 def eval (cfg : Cfg) (env : Env) : Expr → Option Val
   | .lit v => some v
   | .var x => env.lookup x
   | .len e => match eval cfg env e with
     | some (.bytes b) => some (.int b.length)
+    | some (.str s) => some (.int s.length)
     | _ => none
   | .min a b => match eval cfg env a, eval cfg env b with
     | some (.int x), some (.int y) => some (.int (if x ≤ y then x else y))
@@ -254,6 +293,69 @@ def eval (cfg : Cfg) (env : Env) : Expr → Option Val
   | .startsWith e p => match eval cfg env e, eval cfg env p with
     | some (.bytes x), some (.bytes y) => some (.bool (x.take y.length == y))
     | _, _ => none
+  | .orElse a b => match eval cfg env a with
+    | some x => match truthy x with
+      | some true => some x
+      | some false => eval cfg env b
+      | none => none
+    | none => none
+  | .sumValues x d body => match eval cfg env d with
+    | some (.dict items) =>
+      (sumOver (fun v => eval cfg ((x, .bytes v) :: env) body) items).map Val.int
+    | _ => none
+  | .ifExp c a b => match eval cfg env c with
+    | some v => match truthy v with
+      | some true => eval cfg env a
+      | some false => eval cfg env b
+      | none => none
+    | none => none
+  | .isInst e bytesIs => match eval cfg env e with
+    | some (.bytes _) => some (.bool bytesIs)
+    | _ => none
+  | .unsupportedE _ => none
+  | .compressionOn => some (.bool cfg.compression)
+  | .corrId => match cfg.corr with
+    | some b => some (.uuid b)
+    | none => some .none
+  | .uuidBytes e => match eval cfg env e with
+    | some (.uuid b) => some (.bytes b)
+    | _ => none
+  | .joinChunks e => match eval cfg env e with
+    | some (.chunks l) => some (.bytes l.flatten)
+    | _ => none
+  | .emptyList => some (.chunks [])
+  | .concat a b => match eval cfg env a, eval cfg env b with
+    | some (.bytes x), some (.bytes y) => some (.bytes (x ++ y))
+    | _, _ => none
+
+/-- does the value fit the field?  `none` = not a value of the field's kind (outside the fragment) -/
+def fits : Fld → Val → Option Bool
+  | .raw _, .bytes _ => some true
+  | .uint n, .int i => some (decide (0 ≤ i ∧ i < 256 ^ n))
+  | _, _ => none
+
+/-- struct.pack of one field: `<n>s` pads with zero bytes / truncates; an unsigned integer big-endian -/
+def packOne : Fld → Val → Bytes
+  | .raw n, .bytes b => b.take n ++ List.replicate (n - b.length) 0
+  | .uint n, .int i => toBE n i.toNat
+  | _, _ => []
+
+/-- all the arguments of a `struct.pack` call are evaluated first (`none` = outside the fragment) ... -/
+def evalArgs (cfg : Cfg) (env : Env) : PackArgs → Option (List (Fld × Val))
+  | .nil => some []
+  | .cons f e rest =>
+    match eval cfg env e, evalArgs cfg env rest with
+    | some v, some vs => if (fits f v).isSome then some ((f, v) :: vs) else none
+    | _, _ => none
+
+/-- ... then packed in order (`none` = struct.error: some value does not fit its field) -/
+def packAll : List (Fld × Val) → Option Bytes
+  | [] => some []
+  | (f, v) :: r => if fits f v = some true then (packAll r).map (packOne f v ++ ·) else none
+
+/-- `some (some bytes)`; `some none` = struct.error; `none` = outside the fragment -/
+def evalPack (cfg : Cfg) (env : Env) (args : PackArgs) : Option (Option Bytes) :=
+  (evalArgs cfg env args).map packAll
 
 /-- one socket call that either transfers or raises -/
 inductive Sys where
@@ -460,6 +562,41 @@ def exec (cfg : Cfg) : Stmt → Nat → Option Val → Env → World → Res
       match unpackFields fmt b with
       | some vs => if vs.length = targets.length then .normal (bindAll targets vs env) w else .stuck
       | none => .raise (.exc .valueError false none) env w       -- struct.error (not a Pyro error)
+    | _ => .stuck
+  | .setBits x c, _, _, env, w =>
+    match env.lookup x, eval cfg env c with
+    | some (.int a), some (.int b) =>
+      if 0 ≤ a ∧ 0 ≤ b then .normal ((x, .int ((a.toNat ||| b.toNat : Nat))) :: env) w else .stuck
+    | _, _ => .stuck
+  | .compress x e, _, _, env, w =>
+    match eval cfg env e with
+    | some (.bytes b) => .normal ((x, .bytes (cfg.zip b)) :: env) w
+    | _ => .stuck
+  | .packInto x args, _, _, env, w =>
+    match evalPack cfg env args with
+    | some (some b) => .normal ((x, .bytes b) :: env) w
+    | some none => .raise (.exc .structError false none) env w
+    | none => .stuck
+  | .appendTo x e, _, _, env, w =>
+    match env.lookup x, eval cfg env e with
+    | some (.chunks l), some (.bytes b) => .normal ((x, .chunks (l ++ [b])) :: env) w
+    | _, _ => .stuck
+  | .encodeAscii x e, _, _, env, w =>
+    match eval cfg env e with
+    | some (.str s) =>
+      if s.any (· ≥ 128) then .raise (.exc .unicodeEncodeError false none) env w
+      else .normal ((x, .bytes (s.map UInt8.ofNat)) :: env) w
+    | _ => .stuck
+  | .forEachItem _ _ _ _, 0, _, _, _ => .outOfFuel
+  | .forEachItem k v e body, fuel + 1, cur, env, w =>
+    match eval cfg env e with
+    | some (.dict []) => .normal env w
+    | some (.dict ((key, val) :: rest)) =>
+      match exec cfg body (fuel + 1) cur ((v, .bytes val) :: (k, .str key) :: env) w with
+      | .normal env w => exec cfg (.forEachItem k v (.lit (.dict rest)) body) fuel cur env w
+      | .cont env w => exec cfg (.forEachItem k v (.lit (.dict rest)) body) fuel cur env w
+      | .brk env w => .normal env w
+      | r => r
     | _ => .stuck
   | .unsupported _, _, _, _, _ => .stuck
 termination_by s fuel => (fuel, sizeOf s)
